@@ -366,7 +366,7 @@ def stop_cond(c, seq, ts, t, jitter):
     if jitter == "LATEST":
         return late
     rate = c.f["connection"].f["output_node"].f["rate"]
-    expected = z3.ToReal(seq) / rate + c.f["_phase"]
+    expected = V.RDIV(z3.ToReal(seq), rate) + c.f["_phase"]     # the units that use this run with opts['opaque_div']
     return z3.Or(expected > t, ts > t)
 
 
@@ -379,6 +379,9 @@ class PushExpectedNonblocking(Unit):
         for clock in ("SIMULATED", "WALL_CLOCK"):
             for jit in ("LATEST", "BUFFER"):
                 yield f"{clock[:3]},{jit}", dict(clock=clock, jitter=jit, blocking=False)
+
+    def opts(self, cfg):
+        return {"opaque_div": True}
 
     def summaries(self, cfg):
         return conn_summaries(["push_selection"])
